@@ -46,7 +46,7 @@ theorem C01_tie_rule_anchors :
     Gen.calls_qbft_node_uponPrepare = ["HasQuorum", "AddFirstMsgForSignerAndRound", "HasQuorum", "CreateCommit", "Broadcast"] ∧
     Gen.calls_qbft_node_uponProposal = ["AddFirstMsgForSignerAndRound", "TimeoutForRound", "HashDataRoot", "CreatePrepare", "Broadcast"] ∧
     Gen.calls_qbft_UponDecided =
-      ["ValidateDecided", "InstanceForHeight", "NewInstance", "AddMsg", "addNewInstance", "IsDecided", "AddMsg",
+      ["ValidateDecided", "InstanceForHeight", "FindInstance", "addNewInstance", "NewInstance", "AddMsg", "addNewInstance", "IsDecided", "AddMsg",
        "LongestUniqueSignersForRoundAndRoot", "AddMsg", "FindInstance", "SaveInstance", "NewDecidedHandler"] ∧
     Gen.calls_qbft_node_commitQuorumForRoundRoot = ["LongestUniqueSignersForRoundAndRoot", "HasQuorum"] ∧
     Gen.calls_qbft_node_isProposalJustification =
